@@ -33,7 +33,8 @@ def run(tier, seed):
             sc.names = "mixed"
     traces, kept, fails = E.validate(ctx, scs, wanted_trace, "fault-free PFI scenarios (incl. models ignoring feature 2)")
     ctx.count_clause("trace.pfi.*", sum(1 for t in traces for c in t["calls"] if c["pre"]["seen"] >= 1 and c["outcome"] == "ret"))
-    ctx.sample({"direction": "B", "scenario": kept[0].key(),
+    if traces:
+      ctx.sample({"direction": "B", "scenario": kept[0].key(),
                 "call_2_losses": traces[0]["calls"][1]["losses"][:3] if len(traces[0]["calls"]) > 1 else None})
     nf = 0
     for sc in scs[: (25 if quick else 250)]:
@@ -44,7 +45,7 @@ def run(tier, seed):
         if probs:
             ctx.violation("float.pfi_values", E._config_key(sc), "; ".join(probs[:3]), {"scenario": sc.to_json()})
         # ignored feature: float importance must be (close to) zero as well
-        if sc.ignore_feature and xf["raws"]:
+        if sc.ignore_feature and xf["raws"] and xf["env"]:
             nm = xf["env"]["names"][sc.ignore_feature - 1]
             v = xf["raws"][-1]["imp"].get(nm, 0.0)
             if abs(float(v)) > 1e-9:
